@@ -15,6 +15,8 @@ RULE = ("files written from generated Datasets (as in C19); block 'read': for ev
         "'multi': read_nc([f1,f2(,f3)], axis=new|existing, keys, align, sort) vs stack_ds / concatenate_ds of the single reads. "
         "class = (block, variable kind, ndim, index kinds, spelling)")
 ANCHORS = ["nc.read", "nc.write", "nc._getvalues_ortho", "nc._setvalues_ortho", "nc._getaxes_ortho", "nc.__getitem__", "nc._read_multinc"]
+# entry points the workload calls itself; the other anchors are helpers behind them (counted as evidence only)
+ANCHORS_REQUIRED = ["nc.__getitem__"]
 FLOORS = {"quick": {"evaluations": 600, "distinct": 300, "outcome:ondisk-reads-compared": 2500, "outcome:ondisk-writes": 500,
                     "outcome:unlimited-appends": 100, "outcome:multifile-reads": 100},
           "thorough": {"evaluations": 12000, "distinct": 1500}}
